@@ -403,9 +403,17 @@ def multiset_diff(want_rx, have):
 
 def confirm_findings(run, cands, cases_by_name=None):
     """replay every candidate natively (dev; release too when the check runs the release profile)"""
-    for f in cands:
+    cap = int(os.environ.get('VERIF_REPLAY_CAP', '8'))
+    done = 0
+    for f in sorted(cands, key=lambda f: (0 if f['site'].startswith('panic') else 1, f['site'])):
         w = f['witness']
         fi = Finding(run.prop, f['kind'], f['site'], f['what'], w, role=dict(predicate=f.get('predicate', ''), verb=str(w.get('line', '')).split(' ')[0].upper()))
+        if done >= cap and any(g.confirmed for g in run.findings):
+            # enough natively confirmed counterexamples for a verdict; the rest is listed without replay
+            fi.confirmed = 'skipped'; fi.native = 'not replayed (replay cap reached after a confirmed violation)'
+            run.notes.append(f'not replayed: {f["site"]}: {f["what"][:120]}')
+            continue
+        done += 1
         case = (cases_by_name or {}).get(w.get('case')) or getattr(run, 'cases_by_name', {}).get(w.get('case'))
         if case is None:
             fi.confirmed = None; fi.native = 'no case description for native replay'
